@@ -1,0 +1,36 @@
+//go:build verif
+
+package bep44
+
+// Machine-checked contracts, read by the govc verifier under /verif. Comment-only.
+//
+// The specification is written from BEP 44 and from properties C12 / C13, not from the code:
+//   - an item is acceptable (valid(i)) when its value encodes, the encoding is at most 1000 bytes and, for a
+//     mutable item, the salt is at most 64 bytes and the ed25519 signature over the canonical buffer verifies;
+//   - a stored item may be replaced by an incoming one (accepts) when the incoming sequence number is higher and
+//     its CAS value, if given, equals the stored sequence number, or when it has the same sequence number and value.
+// Error codes: 205 value too big, 206 bad signature, 207 salt too big, 301 CAS mismatch, 302 sequence number too low.
+
+//@ spec def errcode(e error) int = typeis(e, krpc.Error) ? unbox(e, krpc.Error).Code : 0
+//@ spec def errcodes() bool = ErrValueFieldTooBig.Code == 205 && ErrInvalidSignature.Code == 206 && ErrSaltFieldTooBig.Code == 207 && ErrCasHashMismatched.Code == 301 && ErrSequenceNumberLessThanCurrent.Code == 302
+//@ spec def mutable(i *Item) bool = i.K != 0
+//@ spec def samevalue(a *Item, b *Item) bool = enc(a.V) == enc(b.V)
+
+// the package initialiser gives the five error values their BEP 44 codes
+//@ func dht/bep44.init
+//@   modifies *
+//@   ensures codes: errcodes()
+
+//@ func (*dht/bep44.Item).IsMutable
+//@   inline
+
+// C13: sequence numbers only move forward; CAS compares with the stored sequence number
+//@ func dht/bep44.CheckIncoming
+//@   requires nonnil: stored != nil && incoming != nil
+//@   requires codes: errcodes()
+//@   requires encodable: encok(stored.V) && encok(incoming.V)
+//@   ensures lower-seq-302: stored.Seq > incoming.Seq ==> errcode(result) == 302
+//@   ensures same-seq-other-value-302: stored.Seq == incoming.Seq && !samevalue(stored, incoming) ==> errcode(result) == 302
+//@   ensures same-seq-same-value-ok: stored.Seq == incoming.Seq && samevalue(stored, incoming) ==> result == nil
+//@   ensures cas-mismatch-301: stored.Seq < incoming.Seq && incoming.Cas != 0 && incoming.Cas != stored.Seq ==> errcode(result) == 301
+//@   ensures higher-seq-ok: stored.Seq < incoming.Seq && (incoming.Cas == 0 || incoming.Cas == stored.Seq) ==> result == nil
